@@ -1,1 +1,1147 @@
-//! C18 - not built yet
+//! C18 - targets agree on everything that is target independent.
+//!
+//! Differential monitor: the same input (one that does not mention the RSSL_TARGET_* macros) is compiled for
+//! HlslForDirectX, HlslForVulkan, HlslForVulkan + buffer addresses and Msl, and the front end is run on its own
+//! through the public stage APIs. The oracle is written from the property text:
+//!
+//!  (1) front end rejects  => all four configurations return exactly the front end's diagnostic text;
+//!  (2) DirectX and Vulkan succeed or fail together (Vulkan + buffer addresses too, unless buffer addresses are involved);
+//!  (3) DirectX and Vulkan sources are the same token sequence once binding annotations (`: register(..)`,
+//!      `[[vk::binding(..)]]`) and `[[vk::...]]` attribute annotations are deleted; the Vulkan source with buffer addresses
+//!      equals the Vulkan source once the buffer address lowering (inline descriptor block, `uint64_t` addresses,
+//!      `vk::RawBufferLoad/Store`) is undone;
+//!  (4) all targets report the same pipelines, stages (kind, thread group size), pipeline state and the same set of
+//!      (binding name, descriptor kind, descriptor count) - static samplers and buffer addresses aside.
+//!
+//! Backend diagnostics (`metal generate: ...`, `hlsl generate: ...`) are target specific by nature: the target is left out
+//! of the comparison and counted.
+//!
+//! The emitted texts are compared as token sequences produced by a small lexer of this file (not by rssl's parser), so
+//! no location erasure is needed and a parser defect cannot mask a difference. Token equality is stronger than tree
+//! equality: a Vulkan-only pair of parentheses would be reported too, which is what the property text demands
+//! ("differ only in binding and attribute annotations and in how buffer addresses are lowered").
+
+use crate::corpus;
+use crate::gen::c18_gen;
+use crate::json::Json;
+use crate::par::{guard, Caught};
+use crate::report::{Ctx, Report};
+use crate::rng::{hash_str, Rng};
+use crate::rs::{self, Files, FilesHandler, Mode, Opts, Outcome, Pipe, Tgt, ALL_TARGETS};
+use crate::CheckDef;
+use std::collections::BTreeSet;
+
+pub fn def() -> CheckDef {
+    CheckDef {
+        id: "C18",
+        salt: 0xC18,
+        rule: "inputs that do not contain the text RSSL_TARGET_ (others are filtered out and counted): every RSSL snippet of the repository's unit \
+               tests (no_pipeline mode), the entry files of tests/basic (all pipelines) and of tests/capsaicin + tests/ffx_fsr2 (no_pipeline), the stand-alone .rssl files of hlsl/tests and msl/tests, and \
+               generated programs (gen::c18_gen: resources of every object kind that are really loaded/stored/sampled, buffer addresses through \
+               parameters and locals, cbuffers, static samplers, bind groups, bindless arrays, helpers, conversion-heavy expression code, 0-4 \
+               pipelines of kinds compute / vertex+pixel / mesh+pixel with per-primitive attributes / task+mesh with graphics state; modes all / \
+               named / unknown name / no_pipeline; layout validation on or off; ~25 % broken on purpose: type, parse, preprocessor, pipeline and \
+               static sampler errors, layout-inconsistent structs; one in five with the declarations in an included file). The generator never \
+               names a global with a word the exporters have to rename (Buffer, vector, float16_t, ...): that family trips the recorded finding \
+               KF-C18-1 (HLSL reports the renamed binding name, Metal the source name), whose witness is replayed on every run. Each input is compiled for DirectX, Vulkan, Vulkan+buffer_address and Msl and \
+               the front end (preprocess, parse, type check, optional layout check) is run separately through the stage APIs with the HLSL and \
+               the MSL predefined macros. Compared: front-end diagnostic == diagnostic of every target; DirectX/Vulkan verdicts; DirectX vs Vulkan \
+               token sequences after deleting `: register(...)` and `[[vk::...]]` annotations (nothing else is stripped); Vulkan vs \
+               Vulkan+buffer_address after undoing the documented lowering (InlineDescriptorN struct and g_inlineDescriptorN global removed, \
+               `static [const] uint64_t X = g_inlineDescriptorN.X` == `(RW)ByteAddressBuffer X`, `vk::RawBufferLoad<T>(A + uint64_t(o), ..)` == \
+               `A.Load<T>(o, ..)`, `uint64_t` may stand where the other side has `(RW)ByteAddressBuffer`); pipeline count, stage kinds and thread \
+               group sizes (entry names among the HLSL flavours only), pipeline state, and the set of (binding name, descriptor kind, count) with \
+               static samplers and (RW)BufferAddress bindings left out as the property says (slots and groups are target specific and not \
+               compared). Backend diagnostics and panics exclude that target (counted). evaluations = compile() and front-end executions \
+               observed; distinct_nontrivial = distinct (input, mode, layout flag) by content hash that reached a comparison",
+        assumptions: &[
+            "the token lexer of the check splits the emitted HLSL the way a C-family lexer does (identifiers, numbers, strings, single punctuation characters)",
+            "which annotations count as `binding and attribute annotations` and what the buffer address lowering looks like is taken from the property text and the tests/basic/*.vk.hlsl golden files",
+            "the front end verdict is computed through the public stage APIs with the predefined macros compile() documents (__HLSL_VERSION, RSSL_TARGET_HLSL, RSSL_TARGET_MSL)",
+        ],
+        min_distinct: (1500, 20000),
+        deadline_s: (50.0, 540.0),
+        run,
+        replay,
+    }
+}
+
+// ------------------------------------------------------------------------------------------------------------
+// the front end on its own
+// ------------------------------------------------------------------------------------------------------------
+
+enum FrontVerdict {
+    Accept,
+    Reject(String),
+    Panic(Caught),
+}
+
+/// preprocess + parse + type check (+ layout check) through the public stage APIs
+fn front(files: &Files, entry: &str, defines: &[(String, String)], msl: bool, validate_layout: bool) -> FrontVerdict {
+    let r = guard(|| {
+        use rssl::text::CompileErrorExt;
+        let mut sm = rssl::text::SourceManager::new();
+        let mut handler = FilesHandler::new(files);
+        let mut d: Vec<(&str, &str)> = vec![("__HLSL_VERSION", "2021"), ("RSSL_TARGET_HLSL", if msl { "0" } else { "1" }), ("RSSL_TARGET_MSL", if msl { "1" } else { "0" })];
+        for (a, b) in defines {
+            d.push((a.as_str(), b.as_str()));
+        }
+        let tokens = match rssl::preprocess::preprocess(entry, &mut sm, &mut handler, &d) {
+            Ok(t) => t,
+            Err(e) => return Err(format!("{}", e.display(&sm))),
+        };
+        let tokens = rssl::preprocess::prepare_tokens(&tokens);
+        let ast = match rssl::parser::parse(&tokens) {
+            Ok(m) => m,
+            Err(e) => return Err(format!("{}", e.display(&sm))),
+        };
+        let ir = match rssl::typer::type_check(&ast) {
+            Ok(m) => m,
+            Err(e) => return Err(format!("{}", e.display(&sm))),
+        };
+        if validate_layout {
+            if let Err(e) = rssl::ir::layout_checker::check_layout(&ir) {
+                return Err(format!("{}", e.display(&sm)));
+            }
+        }
+        Ok(())
+    });
+    match r {
+        Ok(Ok(())) => FrontVerdict::Accept,
+        Ok(Err(d)) => FrontVerdict::Reject(d),
+        Err(c) => FrontVerdict::Panic(c),
+    }
+}
+
+// ------------------------------------------------------------------------------------------------------------
+// tokens of the emitted text
+// ------------------------------------------------------------------------------------------------------------
+
+pub fn lex(text: &str) -> Vec<String> {
+    let b: Vec<char> = text.chars().collect();
+    let mut out = Vec::new();
+    let mut i = 0;
+    while i < b.len() {
+        let c = b[i];
+        if c.is_whitespace() {
+            i += 1;
+        } else if c == '"' {
+            let start = i;
+            i += 1;
+            while i < b.len() && b[i] != '"' {
+                if b[i] == '\\' {
+                    i += 1;
+                }
+                i += 1;
+            }
+            i = (i + 1).min(b.len());
+            out.push(b[start..i].iter().collect());
+        } else if c.is_ascii_digit() {
+            // number: digits, letters, '.', and a sign directly after an exponent letter of a decimal literal
+            let start = i;
+            let hex = c == '0' && i + 1 < b.len() && (b[i + 1] == 'x' || b[i + 1] == 'X');
+            while i < b.len() {
+                let d = b[i];
+                if d.is_ascii_alphanumeric() || d == '.' || d == '_' {
+                    i += 1;
+                } else if (d == '+' || d == '-') && !hex && i > start && (b[i - 1] == 'e' || b[i - 1] == 'E') && i + 1 < b.len() && b[i + 1].is_ascii_digit() {
+                    i += 1;
+                } else {
+                    break;
+                }
+            }
+            out.push(b[start..i].iter().collect());
+        } else if c.is_alphabetic() || c == '_' {
+            let start = i;
+            while i < b.len() && (b[i].is_alphanumeric() || b[i] == '_') {
+                i += 1;
+            }
+            out.push(b[start..i].iter().collect());
+        } else {
+            out.push(c.to_string());
+            i += 1;
+        }
+    }
+    out
+}
+
+fn is(t: &[String], i: usize, s: &str) -> bool {
+    t.get(i).map(|x| x == s).unwrap_or(false)
+}
+
+/// index just after the bracket that closes the one at `open` (which must be `(`, `[`, `{` ); None when unbalanced
+fn skip_group(t: &[String], open: usize) -> Option<usize> {
+    let mut depth = 0i32;
+    let mut i = open;
+    while i < t.len() {
+        match t[i].as_str() {
+            "(" | "[" | "{" => depth += 1,
+            ")" | "]" | "}" => {
+                depth -= 1;
+                if depth == 0 {
+                    return Some(i + 1);
+                }
+            }
+            _ => {}
+        }
+        i += 1;
+    }
+    None
+}
+
+/// index just after the `>` that closes the `<` at `open`
+fn skip_angles(t: &[String], open: usize) -> Option<usize> {
+    let mut depth = 0i32;
+    let mut i = open;
+    while i < t.len() {
+        match t[i].as_str() {
+            "<" => depth += 1,
+            ">" => {
+                depth -= 1;
+                if depth == 0 {
+                    return Some(i + 1);
+                }
+            }
+            "(" | "[" | "{" => {
+                i = skip_group(t, i)?;
+                continue;
+            }
+            ";" | ")" | "}" => return None,
+            _ => {}
+        }
+        i += 1;
+    }
+    None
+}
+
+#[derive(Default)]
+struct Stripped {
+    registers: u64,
+    vk_bindings: u64,
+    vk_offsets: u64,
+    vk_other: Vec<String>,
+}
+
+/// Delete `: register ( ... )` and `[[ vk :: name ( ... ) ]]` - the binding and attribute annotations the property names. Nothing else.
+fn strip_annotations(t: &[String], seen: &mut Stripped) -> Vec<String> {
+    let mut out = Vec::with_capacity(t.len());
+    let mut i = 0;
+    while i < t.len() {
+        if is(t, i, ":") && is(t, i + 1, "register") && is(t, i + 2, "(") {
+            if let Some(end) = skip_group(t, i + 2) {
+                seen.registers += 1;
+                i = end;
+                continue;
+            }
+        }
+        if is(t, i, "[") && is(t, i + 1, "[") && is(t, i + 2, "vk") && is(t, i + 3, ":") && is(t, i + 4, ":") {
+            // [[vk::name]] or [[vk::name(args)]]
+            let name = t.get(i + 5).cloned().unwrap_or_default();
+            let mut j = i + 6;
+            if is(t, j, "(") {
+                match skip_group(t, j) {
+                    Some(end) => j = end,
+                    None => {
+                        out.push(t[i].clone());
+                        i += 1;
+                        continue;
+                    }
+                }
+            }
+            if is(t, j, "]") && is(t, j + 1, "]") {
+                match name.as_str() {
+                    "binding" => seen.vk_bindings += 1,
+                    "offset" => seen.vk_offsets += 1,
+                    _ => seen.vk_other.push(name),
+                }
+                i = j + 2;
+                continue;
+            }
+        }
+        out.push(t[i].clone());
+        i += 1;
+    }
+    out
+}
+
+fn is_inline_descriptor_name(s: &str, prefix: &str) -> bool {
+    s.strip_prefix(prefix).map(|d| !d.is_empty() && d.chars().all(|c| c.is_ascii_digit())).unwrap_or(false)
+}
+
+#[derive(Default)]
+struct Lowering {
+    inline_structs: u64,
+    inline_globals: u64,
+    address_globals: u64,
+    raw_loads: u64,
+    raw_stores: u64,
+}
+
+/// Undo the buffer address lowering of the Vulkan flavour (input: tokens with the annotations already stripped)
+fn undo_buffer_address_lowering(t: &[String], seen: &mut Lowering) -> Result<Vec<String>, String> {
+    let mut out: Vec<String> = Vec::with_capacity(t.len());
+    let mut i = 0;
+    while i < t.len() {
+        // struct InlineDescriptorN { ... } ;
+        if is(t, i, "struct") && t.get(i + 1).map(|n| is_inline_descriptor_name(n, "InlineDescriptor")).unwrap_or(false) && is(t, i + 2, "{") {
+            let end = skip_group(t, i + 2).ok_or("unbalanced inline descriptor struct")?;
+            if !is(t, end, ";") {
+                return Err("inline descriptor struct is not followed by `;`".into());
+            }
+            seen.inline_structs += 1;
+            i = end + 1;
+            continue;
+        }
+        // ConstantBuffer < InlineDescriptorN > g_inlineDescriptorN ;
+        if is(t, i, "ConstantBuffer")
+            && is(t, i + 1, "<")
+            && t.get(i + 2).map(|n| is_inline_descriptor_name(n, "InlineDescriptor")).unwrap_or(false)
+            && is(t, i + 3, ">")
+            && t.get(i + 4).map(|n| is_inline_descriptor_name(n, "g_inlineDescriptor")).unwrap_or(false)
+            && is(t, i + 5, ";")
+        {
+            seen.inline_globals += 1;
+            i += 6;
+            continue;
+        }
+        // static [const] uint64_t X = g_inlineDescriptorN . X ;   ==>   uint64_t X ;
+        if is(t, i, "static") {
+            let mut j = i + 1;
+            if is(t, j, "const") {
+                j += 1;
+            }
+            if is(t, j, "uint64_t")
+                && is(t, j + 2, "=")
+                && t.get(j + 3).map(|n| is_inline_descriptor_name(n, "g_inlineDescriptor")).unwrap_or(false)
+                && is(t, j + 4, ".")
+                && t.get(j + 5) == t.get(j + 1)
+                && is(t, j + 6, ";")
+            {
+                seen.address_globals += 1;
+                out.push("uint64_t".into());
+                out.push(t[j + 1].clone());
+                out.push(";".into());
+                i = j + 7;
+                continue;
+            }
+        }
+        // vk :: RawBufferLoad|RawBufferStore [< T >] ( A + uint64_t ( off ) [, rest] )   ==>   A . Load|Store [< T >] ( off [, rest] )
+        if is(t, i, "vk") && is(t, i + 1, ":") && is(t, i + 2, ":") && (is(t, i + 3, "RawBufferLoad") || is(t, i + 3, "RawBufferStore")) {
+            let method = if is(t, i + 3, "RawBufferLoad") { "Load" } else { "Store" };
+            let mut j = i + 4;
+            let mut targs: Vec<String> = Vec::new();
+            if is(t, j, "<") {
+                let end = skip_angles(t, j).ok_or("unbalanced template arguments of a raw buffer access")?;
+                targs = t[j..end].to_vec();
+                j = end;
+            }
+            if !is(t, j, "(") {
+                return Err("raw buffer access without argument list".into());
+            }
+            let close = skip_group(t, j).ok_or("unbalanced argument list of a raw buffer access")?;
+            // arguments (recursively lowered back)
+            let inner = undo_buffer_address_lowering(&t[j + 1..close - 1], seen)?;
+            // first argument = up to the first comma at depth 0
+            let mut depth = 0i32;
+            let mut first_end = inner.len();
+            for (k, tok) in inner.iter().enumerate() {
+                match tok.as_str() {
+                    "(" | "[" | "{" => depth += 1,
+                    ")" | "]" | "}" => depth -= 1,
+                    "," if depth == 0 => {
+                        first_end = k;
+                        break;
+                    }
+                    _ => {}
+                }
+            }
+            let first = &inner[..first_end];
+            // the address argument ends with `+ uint64_t ( off )`: find the last depth-0 `+ uint64_t (` whose group closes the argument
+            let mut split: Option<usize> = None;
+            let mut depth = 0i32;
+            for k in 0..first.len() {
+                match first[k].as_str() {
+                    "(" | "[" | "{" => depth += 1,
+                    ")" | "]" | "}" => depth -= 1,
+                    "+" if depth == 0 && is(first, k + 1, "uint64_t") && is(first, k + 2, "(") => {
+                        if skip_group(first, k + 2) == Some(first.len()) {
+                            split = Some(k);
+                        }
+                    }
+                    _ => {}
+                }
+            }
+            let split = split.ok_or("address argument of a raw buffer access is not of the form `A + uint64_t(offset)`")?;
+            let address = &first[..split];
+            let offset = &first[split + 3..first.len() - 1];
+            if address.is_empty() {
+                return Err("empty address in a raw buffer access".into());
+            }
+            if method == "Load" {
+                seen.raw_loads += 1;
+            } else {
+                seen.raw_stores += 1;
+            }
+            // `.Load` binds tighter than the `+` of the lowered form: an address that is not a postfix expression (a cast, a
+            // unary or binary operation) needs parentheses in the method form
+            if is_postfix_expression(address) {
+                out.extend_from_slice(address);
+            } else {
+                out.push("(".into());
+                out.extend_from_slice(address);
+                out.push(")".into());
+            }
+            out.push(".".into());
+            out.push(method.into());
+            out.extend(targs);
+            out.push("(".into());
+            out.extend_from_slice(offset);
+            out.extend_from_slice(&inner[first_end..]);
+            out.push(")".into());
+            i = close;
+            continue;
+        }
+        out.push(t[i].clone());
+        i += 1;
+    }
+    Ok(out)
+}
+
+/// identifier or parenthesised group, followed by any number of `.name`, `::name`, `[..]`, `(..)`
+fn is_postfix_expression(t: &[String]) -> bool {
+    let ident = |s: &String| s.chars().next().map(|c| c.is_alphanumeric() || c == '_').unwrap_or(false);
+    let mut i = match t.first() {
+        Some(f) if f == "(" => match skip_group(t, 0) {
+            Some(end) => end,
+            None => return false,
+        },
+        Some(f) if ident(f) => 1,
+        _ => return false,
+    };
+    while i < t.len() {
+        match t[i].as_str() {
+            "." if t.get(i + 1).map(ident).unwrap_or(false) => i += 2,
+            ":" if is(t, i + 1, ":") && t.get(i + 2).map(ident).unwrap_or(false) => i += 3,
+            "[" | "(" => match skip_group(t, i) {
+                Some(end) => i = end,
+                None => return false,
+            },
+            _ => return false,
+        }
+    }
+    true
+}
+
+/// First position where the sequences differ. With `address_types`, `uint64_t` on the right may face `(RW)ByteAddressBuffer` on the left.
+fn first_token_difference(a: &[String], b: &[String], address_types: bool, tolerated: &mut u64) -> Option<usize> {
+    let n = a.len().min(b.len());
+    for i in 0..n {
+        if a[i] != b[i] {
+            if address_types && b[i] == "uint64_t" && (a[i] == "ByteAddressBuffer" || a[i] == "RWByteAddressBuffer") {
+                *tolerated += 1;
+                continue;
+            }
+            return Some(i);
+        }
+    }
+    if a.len() != b.len() {
+        return Some(n);
+    }
+    None
+}
+
+fn context(t: &[String], at: usize) -> String {
+    let lo = at.saturating_sub(10);
+    let hi = (at + 10).min(t.len());
+    let mut s = String::new();
+    for (k, tok) in t[lo..hi].iter().enumerate() {
+        if k > 0 {
+            s.push(' ');
+        }
+        if lo + k == at {
+            s.push_str(">>>");
+        }
+        s.push_str(tok);
+        if lo + k == at {
+            s.push_str("<<<");
+        }
+    }
+    if at >= t.len() {
+        s.push_str(" >>><end of text><<<");
+    }
+    s
+}
+
+/// Class of a token for signatures: keywords/types/punctuation verbatim, other identifiers and literals by kind
+fn token_class(t: Option<&String>) -> String {
+    let Some(t) = t else { return "<end>".into() };
+    let c = t.chars().next().unwrap_or(' ');
+    if c.is_ascii_digit() {
+        return "<number>".into();
+    }
+    if c == '"' {
+        return "<string>".into();
+    }
+    if c.is_alphabetic() || c == '_' {
+        const WORDS: &[&str] = &[
+            "vk", "register", "static", "const", "uint64_t", "uint", "int", "float", "half", "double", "bool", "struct", "ConstantBuffer", "ByteAddressBuffer", "RWByteAddressBuffer", "cbuffer",
+            "return", "if", "for", "while", "void", "in", "out", "inout", "extern", "groupshared", "namespace", "template", "typename", "Load", "Store", "RawBufferLoad", "RawBufferStore",
+        ];
+        if WORDS.contains(&t.as_str()) {
+            return t.clone();
+        }
+        return "<identifier>".into();
+    }
+    t.clone()
+}
+
+// ------------------------------------------------------------------------------------------------------------
+// metadata
+// ------------------------------------------------------------------------------------------------------------
+
+struct Bindings {
+    /// (name, kind, count) of every binding
+    all: BTreeSet<(String, String, String)>,
+    static_sampler_names: BTreeSet<String>,
+}
+
+fn bindings_of(p: &Pipe) -> Bindings {
+    let mut all = BTreeSet::new();
+    let mut static_sampler_names = BTreeSet::new();
+    for g in &p.metadata.bind_groups {
+        for b in &g.bindings {
+            all.insert((b.name.clone(), format!("{:?}", b.descriptor_type), format!("{:?}", b.descriptor_count)));
+            if b.static_sampler.is_some() {
+                static_sampler_names.insert(b.name.clone());
+            }
+        }
+    }
+    Bindings { all, static_sampler_names }
+}
+
+fn is_address_kind(kind: &str) -> bool {
+    kind == "BufferAddress" || kind == "RwBufferAddress"
+}
+
+fn is_backend_diagnostic(d: &str) -> bool {
+    // the exporters' own diagnostics (rendered without a source location)
+    d.contains("metal generate:") || d.contains("metal format:") || d.contains("hlsl generate:") || d.contains("hlsl format:") || d.contains("interpolator required by pixel stage has not been provided")
+}
+
+fn diag_class(d: &str) -> String {
+    let first = d.lines().next().unwrap_or("");
+    let msg = match first.find("error:") {
+        Some(i) => &first[i + 6..],
+        None => first,
+    };
+    let mut out = String::new();
+    for c in msg.trim().chars() {
+        if c == '\'' || c == '`' || c == '(' || c == ':' || c == '"' || c.is_ascii_digit() {
+            break;
+        }
+        out.push(c);
+    }
+    out.trim().chars().take(48).collect()
+}
+
+// ------------------------------------------------------------------------------------------------------------
+// one case
+// ------------------------------------------------------------------------------------------------------------
+
+pub struct Case {
+    pub files: Files,
+    pub entry: String,
+    pub defines: Vec<(String, String)>,
+    pub mode: Mode,
+    pub validate_layout: bool,
+    pub origin: String,
+}
+
+impl Case {
+    fn witness(&self, observed: Json) -> Json {
+        let mut w = Json::obj().set("origin", self.origin.as_str()).set("entry", self.entry.as_str()).set("mode", self.mode.name()).set("validate_layout", self.validate_layout);
+        if self.files.total_len() <= 48 * 1024 {
+            w.put("files", self.files.to_json());
+        }
+        w.put("defines", Json::Arr(self.defines.iter().map(|(a, b)| Json::Arr(vec![Json::str(a), Json::str(b)])).collect()));
+        w.put("observed", observed);
+        w
+    }
+    fn entry_text(&self) -> &str {
+        self.files.0.iter().find(|f| f.0 == self.entry).map(|f| f.1.as_str()).unwrap_or("")
+    }
+    fn mentions(&self, needle: &str) -> bool {
+        let entry = self.entry_text();
+        if entry.contains(needle) {
+            return true;
+        }
+        // anything the entry could include
+        entry.contains("#include") && self.files.0.iter().any(|f| f.1.contains(needle))
+    }
+}
+
+fn short(s: &str, n: usize) -> String {
+    if s.len() <= n {
+        s.to_string()
+    } else {
+        let mut end = n;
+        while !s.is_char_boundary(end) {
+            end -= 1;
+        }
+        format!("{}...", &s[..end])
+    }
+}
+
+/// Returns true when the case reached a comparison
+pub fn examine(case: &Case, report: &mut Report) -> bool {
+    if case.mentions("RSSL_TARGET_") {
+        report.count("filtered:mentions-RSSL_TARGET_");
+        return false;
+    }
+    // ---- the four configurations -------------------------------------------------------------------------------
+    let mut outcomes: Vec<(Tgt, Outcome)> = Vec::new();
+    for t in ALL_TARGETS {
+        let mut opts = Opts::new(t, case.mode.clone());
+        opts.validate_layout = case.validate_layout;
+        opts.defines = case.defines.clone();
+        let o = rs::compile(&case.files, &case.entry, &opts);
+        report.evaluations += 1;
+        if let Outcome::Budget { .. } = o {
+            report.count("skipped:step-budget");
+            return false;
+        }
+        outcomes.push((t, o));
+    }
+    let get = |t: Tgt| -> &Outcome { &outcomes.iter().find(|(x, _)| *x == t).unwrap().1 };
+
+    // ---- the front end on its own ------------------------------------------------------------------------------
+    let fh = front(&case.files, &case.entry, &case.defines, false, case.validate_layout);
+    let fm = front(&case.files, &case.entry, &case.defines, true, case.validate_layout);
+    report.evaluations += 2;
+    let fh_text = match &fh {
+        FrontVerdict::Accept => None,
+        FrontVerdict::Reject(d) => Some(d.clone()),
+        FrontVerdict::Panic(c) => {
+            // C08's business; every configuration shares the front end
+            report.count(&format!("skipped:front-end-panic:{}", c.signature()));
+            return false;
+        }
+    };
+    let fm_text = match &fm {
+        FrontVerdict::Accept => None,
+        FrontVerdict::Reject(d) => Some(d.clone()),
+        FrontVerdict::Panic(c) => {
+            report.count(&format!("skipped:front-end-panic:{}", c.signature()));
+            return false;
+        }
+    };
+    if fh_text != fm_text {
+        report.violation(
+            "front-end-verdict-depends-on-target-macros",
+            &format!("the front end gives different results under the HLSL and the MSL predefined macros although the input does not mention them ({})", case.origin),
+            case.witness(Json::obj().set("front_hlsl", fh_text.clone().unwrap_or("accepted".into())).set("front_msl", fm_text.clone().unwrap_or("accepted".into()))),
+        );
+        return true;
+    }
+
+    // (1) rejected by the front end: the same diagnostic everywhere
+    if let Some(expected) = &fh_text {
+        report.count("front-end:rejected");
+        report.count(&format!("rejected:{}", diag_class(expected)));
+        for (t, o) in &outcomes {
+            match o {
+                Outcome::Diag(d) if d == expected => report.count("front-diagnostic:identical"),
+                Outcome::Diag(d) => report.violation(
+                    &format!("front-diagnostic-differs:{}", t.name()),
+                    &format!("{} reports a different diagnostic than the front end for a rejected input ({}): `{}` vs `{}`", t.name(), case.origin, short(d, 100), short(expected, 100)),
+                    case.witness(Json::obj().set("target", t.name()).set("target_diagnostic", d.as_str()).set("front_end_diagnostic", expected.as_str())),
+                ),
+                Outcome::Ok(_) => report.violation(
+                    &format!("front-verdict-differs:{}-accepts", t.name()),
+                    &format!("{} accepts an input the front end rejects ({}): `{}`", t.name(), case.origin, short(expected, 100)),
+                    case.witness(Json::obj().set("target", t.name()).set("front_end_diagnostic", expected.as_str())),
+                ),
+                Outcome::Panic(c) => report.count(&format!("skipped:panic:{}:{}", t.name(), c.signature())),
+                Outcome::Budget { .. } => {}
+            }
+        }
+        return true;
+    }
+    report.count("front-end:accepted");
+
+    // ---- accepted by the front end -----------------------------------------------------------------------------
+    // classify what each configuration did
+    #[derive(PartialEq, Clone, Debug)]
+    enum Class {
+        Ok,
+        /// target independent diagnostic after the front end (pipeline selection)
+        Shared(String),
+        Backend(String),
+        Panic(String),
+    }
+    let mut classes: Vec<(Tgt, Class)> = Vec::new();
+    for (t, o) in &outcomes {
+        let c = match o {
+            Outcome::Ok(_) => Class::Ok,
+            Outcome::Diag(d) if is_backend_diagnostic(d) => Class::Backend(d.clone()),
+            Outcome::Diag(d) => Class::Shared(d.clone()),
+            Outcome::Panic(c) => Class::Panic(c.signature()),
+            Outcome::Budget { .. } => unreachable!(),
+        };
+        match &c {
+            Class::Ok => report.count(&format!("outcome:{}:ok", t.name())),
+            Class::Shared(d) => report.count(&format!("outcome:{}:diagnostic:{}", t.name(), diag_class(d))),
+            Class::Backend(d) => report.count(&format!("excluded:{}:backend-diagnostic:{}", t.name(), short(d.lines().next().unwrap_or("").trim_start_matches("error: "), 60))),
+            Class::Panic(s) => report.count(&format!("excluded:{}:panic:{}", t.name(), s)),
+        }
+        classes.push((t.clone(), c));
+    }
+    let class_of = |t: Tgt| -> &Class { &classes.iter().find(|(x, _)| *x == t).unwrap().1 };
+
+    // target independent verdict: among the configurations that did not stop in their own backend, all succeed or all report the same text
+    {
+        let comparable: Vec<&(Tgt, Class)> = classes.iter().filter(|(_, c)| matches!(c, Class::Ok | Class::Shared(_))).collect();
+        if let Some(first) = comparable.first() {
+            for other in &comparable[1..] {
+                if other.1 != first.1 {
+                    let text = |c: &Class| match c {
+                        Class::Ok => "succeeds".to_string(),
+                        Class::Shared(d) => format!("reports `{}`", short(d, 100)),
+                        _ => String::new(),
+                    };
+                    report.violation(
+                        &format!("verdict-differs:{}-{}", first.0.name(), other.0.name()),
+                        &format!("after an accepted front end {} {} but {} {} ({})", first.0.name(), text(&first.1), other.0.name(), text(&other.1), case.origin),
+                        case.witness(Json::obj().set("first", format!("{:?}", first.1)).set("second", format!("{:?}", other.1))),
+                    );
+                }
+            }
+            if let Class::Shared(_) = first.1 {
+                report.count("shared-diagnostic:compared");
+            }
+        }
+    }
+
+    // (2) DirectX and Vulkan succeed or fail together
+    {
+        let (dx, vk, vkba) = (class_of(Tgt::Dx), class_of(Tgt::Vk), class_of(Tgt::VkBa));
+        let ok = |c: &Class| matches!(c, Class::Ok);
+        if ok(dx) != ok(vk) {
+            let failing = if ok(dx) { vk } else { dx };
+            let what = match failing {
+                Class::Backend(d) | Class::Shared(d) => format!("diagnostic:{}", diag_class(d)),
+                Class::Panic(s) => format!("panic:{}", s),
+                Class::Ok => String::new(),
+            };
+            report.violation(
+                &format!("dx-vk-verdict:{}", what),
+                &format!("DirectX {} but Vulkan {} ({})", if ok(dx) { "succeeds" } else { "fails" }, if ok(vk) { "succeeds" } else { "fails" }, case.origin),
+                case.witness(Json::obj().set("directx", format!("{:?}", dx)).set("vulkan", format!("{:?}", vk))),
+            );
+        } else {
+            report.count("dx-vk-verdict:same");
+        }
+        if ok(vk) != ok(vkba) {
+            if case.mentions("BufferAddress") {
+                // "unless the difference is about buffer addresses"
+                report.count("vk-vkba-verdict:differs-with-buffer-addresses-in-the-input(tolerated)");
+            } else {
+                report.violation(
+                    "vk-vkba-verdict",
+                    &format!("Vulkan and Vulkan+buffer_address do not succeed or fail together although the input has no buffer address ({})", case.origin),
+                    case.witness(Json::obj().set("vulkan", format!("{:?}", vk)).set("vulkan_buffer_address", format!("{:?}", vkba))),
+                );
+            }
+        } else {
+            report.count("vk-vkba-verdict:same");
+        }
+    }
+
+    // (3) sources
+    let pipes = |t: Tgt| -> Option<&Vec<Pipe>> { get(t).ok() };
+    let mut compared_any = matches!(classes.iter().filter(|(_, c)| matches!(c, Class::Ok | Class::Shared(_))).count(), 2..);
+    if let (Some(dx), Some(vk)) = (pipes(Tgt::Dx), pipes(Tgt::Vk)) {
+        if dx.len() == vk.len() {
+            for (i, (a, b)) in dx.iter().zip(vk.iter()).enumerate() {
+                let (mut sa, mut sb) = (Stripped::default(), Stripped::default());
+                let ta = strip_annotations(&lex(&a.source), &mut sa);
+                let tb = strip_annotations(&lex(&b.source), &mut sb);
+                report.count_n("stripped:dx:register-annotations", sa.registers);
+                report.count_n("stripped:vk:vk::binding", sb.vk_bindings);
+                report.count_n("stripped:dx:vk-attributes(unexpected)", sa.vk_bindings + sa.vk_offsets + sa.vk_other.len() as u64);
+                report.count_n("stripped:vk:register-annotations(unexpected)", sb.registers);
+                for n in &sb.vk_other {
+                    report.count(&format!("stripped:vk:vk::{}", n));
+                }
+                let mut zero = 0;
+                match first_token_difference(&ta, &tb, false, &mut zero) {
+                    None => {
+                        report.count("source:dx-vk:equal-after-stripping");
+                        report.count_n("source:dx-vk:tokens-compared", ta.len() as u64);
+                    }
+                    Some(at) => report.violation(
+                        &format!("source-dx-vk:{}|{}", token_class(ta.get(at)), token_class(tb.get(at))),
+                        &format!("DirectX and Vulkan sources differ outside binding/attribute annotations ({}, pipeline {}): `{}` vs `{}`", case.origin, i, context(&ta, at), context(&tb, at)),
+                        case.witness(Json::obj().set("pipeline", i).set("directx_context", context(&ta, at)).set("vulkan_context", context(&tb, at)).set("directx_source", a.source.as_str()).set("vulkan_source", b.source.as_str())),
+                    ),
+                }
+            }
+            compared_any = true;
+        }
+    }
+    if let (Some(vk), Some(ba)) = (pipes(Tgt::Vk), pipes(Tgt::VkBa)) {
+        if vk.len() == ba.len() {
+            for (i, (a, b)) in vk.iter().zip(ba.iter()).enumerate() {
+                let (mut sa, mut sb) = (Stripped::default(), Stripped::default());
+                let ta = strip_annotations(&lex(&a.source), &mut sa);
+                let tb = strip_annotations(&lex(&b.source), &mut sb);
+                report.count_n("stripped:vkba:vk::offset", sb.vk_offsets);
+                let mut low = Lowering::default();
+                match undo_buffer_address_lowering(&tb, &mut low) {
+                    Err(why) => report.violation(
+                        "source-vk-vkba:lowering-not-recognised",
+                        &format!("the buffer address lowering of the Vulkan source has an unexpected shape ({}, pipeline {}): {}", case.origin, i, why),
+                        case.witness(Json::obj().set("pipeline", i).set("why", why.as_str()).set("vulkan_source", a.source.as_str()).set("vulkan_buffer_address_source", b.source.as_str())),
+                    ),
+                    Ok(tb) => {
+                        report.count_n("lowering:inline-descriptor-structs", low.inline_structs);
+                        report.count_n("lowering:inline-descriptor-globals", low.inline_globals);
+                        report.count_n("lowering:address-globals", low.address_globals);
+                        report.count_n("lowering:raw-loads", low.raw_loads);
+                        report.count_n("lowering:raw-stores", low.raw_stores);
+                        let mut tolerated = 0;
+                        match first_token_difference(&ta, &tb, true, &mut tolerated) {
+                            None => {
+                                report.count("source:vk-vkba:equal-after-undoing-the-lowering");
+                                report.count_n("lowering:address-type-tokens", tolerated);
+                                if low.address_globals + low.raw_loads + low.raw_stores + tolerated > 0 {
+                                    report.count("source:vk-vkba:with-buffer-addresses");
+                                }
+                            }
+                            Some(at) => report.violation(
+                                &format!("source-vk-vkba:{}|{}", token_class(ta.get(at)), token_class(tb.get(at))),
+                                &format!("Vulkan sources with and without buffer addresses differ outside the address lowering ({}, pipeline {}): `{}` vs `{}`", case.origin, i, context(&ta, at), context(&tb, at)),
+                                case.witness(
+                                    Json::obj().set("pipeline", i).set("vulkan_context", context(&ta, at)).set("vulkan_buffer_address_context", context(&tb, at)).set("vulkan_source", a.source.as_str()).set("vulkan_buffer_address_source", b.source.as_str()),
+                                ),
+                            ),
+                        }
+                    }
+                }
+            }
+        }
+    }
+
+    // (4) what every target reports
+    let ok_targets: Vec<(Tgt, &Vec<Pipe>)> = ALL_TARGETS.iter().filter_map(|t| pipes(*t).map(|p| (*t, p))).collect();
+    if let Some((rt, rp)) = ok_targets.first() {
+        for (t, p) in &ok_targets[1..] {
+            let pair = format!("{}-{}", rt.name(), t.name());
+            if rp.len() != p.len() {
+                report.violation(
+                    &format!("pipeline-count:{}", pair),
+                    &format!("{} returns {} pipelines, {} returns {} ({})", rt.name(), rp.len(), t.name(), p.len(), case.origin),
+                    case.witness(Json::obj().set("first", rp.len()).set("second", p.len())),
+                );
+                continue;
+            }
+            report.count(&format!("reports-compared:{}", pair));
+            for (i, (a, b)) in rp.iter().zip(p.iter()).enumerate() {
+                // stages
+                let stages = |x: &Pipe, names: bool| -> Vec<String> { x.stages.iter().map(|s| if names { format!("{:?} {} {:?}", s.stage, s.entry_point, s.thread_group_size) } else { format!("{:?} {:?}", s.stage, s.thread_group_size) }).collect() };
+                let names = rt.is_hlsl() && t.is_hlsl();
+                let (sa, sb) = (stages(a, names), stages(b, names));
+                if sa != sb {
+                    report.violation(
+                        &format!("stages-differ:{}", pair),
+                        &format!("pipeline {} has stages {:?} for {} but {:?} for {} ({})", i, sa, rt.name(), sb, t.name(), case.origin),
+                        case.witness(Json::obj().set("pipeline", i).set("first", Json::from(sa.clone())).set("second", Json::from(sb.clone()))),
+                    );
+                } else {
+                    report.count_n("stages:compared", sa.len() as u64);
+                    for s in &a.stages {
+                        report.count(&format!("stage:{:?}", s.stage));
+                        if s.thread_group_size.is_some() {
+                            report.count("stage:with-thread-group-size");
+                        }
+                    }
+                }
+                // pipeline state
+                if a.pipeline_state != b.pipeline_state {
+                    report.violation(
+                        &format!("pipeline-state-differs:{}", pair),
+                        &format!("pipeline {} has a different graphics state for {} and {} ({})", i, rt.name(), t.name(), case.origin),
+                        case.witness(Json::obj().set("pipeline", i).set("first", a.pipeline_state.as_str()).set("second", b.pipeline_state.as_str())),
+                    );
+                } else if a.pipeline_state != "None" {
+                    report.count("pipeline-state:compared(graphics)");
+                } else {
+                    report.count("pipeline-state:compared(none)");
+                }
+                // bindings
+                let (ba, bb) = (bindings_of(a), bindings_of(b));
+                // static samplers aside: a name any of the two marks as static sampler takes no part; buffer addresses aside
+                let statics: BTreeSet<&String> = ba.static_sampler_names.iter().chain(bb.static_sampler_names.iter()).collect();
+                let core = |x: &Bindings| -> BTreeSet<(String, String, String)> { x.all.iter().filter(|(n, k, _)| !statics.contains(n) && !is_address_kind(k)).cloned().collect() };
+                let (ca, cb) = (core(&ba), core(&bb));
+                if ca != cb {
+                    let only_a: Vec<String> = ca.difference(&cb).map(|x| format!("{} {} {}", x.0, x.1, x.2)).collect();
+                    let only_b: Vec<String> = cb.difference(&ca).map(|x| format!("{} {} {}", x.0, x.1, x.2)).collect();
+                    let kind = ca.symmetric_difference(&cb).next().map(|x| x.1.clone()).unwrap_or_default();
+                    // one recognisable class: a side reports `name_<digits>` (the name an exporter gave the global in its output) where
+                    // the other side reports `name`
+                    let renamed = |x: &BTreeSet<(String, String, String)>, y: &BTreeSet<(String, String, String)>| -> bool {
+                        x.difference(y).all(|e| {
+                            y.difference(x).any(|f| {
+                                f.1 == e.1
+                                    && f.2 == e.2
+                                    && (f.0.strip_prefix(e.0.as_str()).or(e.0.strip_prefix(f.0.as_str()))).map(|r| r.len() > 1 && r.starts_with('_') && r[1..].chars().all(|c| c.is_ascii_digit())).unwrap_or(false)
+                            })
+                        })
+                    };
+                    let signature = if renamed(&ca, &cb) && renamed(&cb, &ca) {
+                        let who = if rt.is_hlsl() != t.is_hlsl() { "hlsl-vs-msl" } else { "same-language" };
+                        format!("bindings-differ:{}:exporter-reports-renamed-binding-name", who)
+                    } else {
+                        format!("bindings-differ:{}:{}", pair, kind)
+                    };
+                    report.violation(
+                        &signature,
+                        &format!("pipeline {}: only {} reports {:?}, only {} reports {:?} ({})", i, rt.name(), only_a, t.name(), only_b, case.origin),
+                        case.witness(Json::obj().set("pipeline", i).set("only_first", Json::from(only_a)).set("only_second", Json::from(only_b))),
+                    );
+                } else {
+                    report.count("bindings:sets-compared");
+                    report.count_n("bindings:compared", ca.len() as u64);
+                    for (_, k, _) in &ca {
+                        report.count(&format!("binding-kind:{}", k));
+                    }
+                    if !statics.is_empty() {
+                        report.count_n("bindings:static-samplers-set-aside", statics.len() as u64);
+                    }
+                    let addr = |x: &Bindings| -> BTreeSet<(String, String, String)> { x.all.iter().filter(|(_, k, _)| is_address_kind(k)).cloned().collect() };
+                    let (aa, ab) = (addr(&ba), addr(&bb));
+                    if !aa.is_empty() || !ab.is_empty() {
+                        report.count(if aa == ab { "bindings:buffer-addresses-set-aside(equal anyway)" } else { "bindings:buffer-addresses-set-aside(different)" });
+                    }
+                }
+            }
+            compared_any = true;
+        }
+    }
+    compared_any
+}
+
+// ------------------------------------------------------------------------------------------------------------
+// workload
+// ------------------------------------------------------------------------------------------------------------
+
+enum Work {
+    Snippet(usize),
+    Corpus(usize, usize, bool),
+    Generated(u64),
+}
+
+pub fn generated_case(seed: u64, index: u64) -> (Case, c18_gen::Program) {
+    let mut rng = Rng::for_case(seed, 0x1801, index);
+    let cfg = c18_gen::Config::default();
+    let p = c18_gen::generate(&mut rng, &cfg);
+    let mode = if p.pipelines.is_empty() {
+        if rng.chance(4, 5) {
+            Mode::NoPipeline
+        } else {
+            Mode::All
+        }
+    } else {
+        match rng.below(10) {
+            0..=5 => Mode::All,
+            6 | 7 => Mode::Named(rng.pick(&p.pipelines).clone()),
+            8 => Mode::Named("NoSuchPipeline".into()),
+            _ => Mode::NoPipeline,
+        }
+    };
+    let validate_layout = rng.chance(1, 2);
+    // one in five: the declarations live in an included file (diagnostics then carry another file name)
+    let files = if rng.chance(1, 5) && !p.text.starts_with("#if") {
+        let (header, rest) = p.text.split_at(p.header_len);
+        Files(vec![("main.rssl".to_string(), format!("#include \"shared/common.h\"\n{}", rest)), ("shared/common.h".to_string(), header.to_string())])
+    } else {
+        Files::single("main.rssl", &p.text)
+    };
+    let case = Case {
+        files,
+        entry: "main.rssl".into(),
+        defines: Vec::new(),
+        mode,
+        validate_layout,
+        origin: format!("gen::c18_gen:{}", index),
+    };
+    (case, p)
+}
+
+fn run(ctx: &Ctx) -> Report {
+    let mut sets = corpus::load();
+    // the stand-alone .rssl files of the exporter test suites
+    {
+        let mut files = Vec::new();
+        let mut entries = Vec::new();
+        for dir in ["hlsl/tests", "msl/tests"] {
+            let Ok(rd) = std::fs::read_dir(corpus::repo_dir().join(dir)) else { continue };
+            let mut paths: Vec<_> = rd.flatten().map(|e| e.path()).filter(|p| p.extension().map(|e| e == "rssl").unwrap_or(false)).collect();
+            paths.sort();
+            for p in paths {
+                if let Ok(text) = std::fs::read_to_string(&p) {
+                    let name = format!("{}/{}", dir, p.file_name().unwrap().to_string_lossy());
+                    entries.push(name.clone());
+                    files.push((name, text));
+                }
+            }
+        }
+        sets.push(corpus::CorpusSet {
+            name: "exporter-tests".into(),
+            files: Files(files),
+            entries,
+            defines: Vec::new(),
+            has_pipelines: true,
+        });
+    }
+    let snippets = corpus::test_snippets();
+    let mut work: Vec<Work> = Vec::new();
+    for (si, s) in sets.iter().enumerate() {
+        for ei in 0..s.entries.len() {
+            work.push(Work::Corpus(si, ei, false));
+            if s.has_pipelines {
+                work.push(Work::Corpus(si, ei, true));
+            }
+        }
+    }
+    let generated = ctx.tier.pick(24_000, 300_000);
+    // interleave so that a deadline cuts all sources alike
+    let mut gi = 0u64;
+    let per_snippet = (generated / snippets.len().max(1) as u64).max(1);
+    for i in 0..snippets.len() {
+        work.push(Work::Snippet(i));
+        for _ in 0..per_snippet {
+            if gi < generated {
+                work.push(Work::Generated(gi));
+                gi += 1;
+            }
+        }
+    }
+    while gi < generated {
+        work.push(Work::Generated(gi));
+        gi += 1;
+    }
+    let seed = ctx.seed;
+    let mut report = crate::par::run_cases(ctx, work.len() as u64, |index, report| {
+        let (case, features, injected): (Case, Vec<String>, Option<&'static str>) = match &work[index as usize] {
+            Work::Snippet(i) => (
+                Case {
+                    files: Files::single("main.rssl", &snippets[*i]),
+                    entry: "main.rssl".into(),
+                    defines: Vec::new(),
+                    mode: Mode::NoPipeline,
+                    validate_layout: i % 3 == 0,
+                    origin: format!("unit-test-snippet:{}", i),
+                },
+                vec!["origin:unit-test-snippet".into()],
+                None,
+            ),
+            Work::Corpus(si, ei, validate) => {
+                let s = &sets[*si];
+                (
+                    Case {
+                        files: s.files.clone(),
+                        entry: s.entries[*ei].clone(),
+                        defines: s.defines.clone(),
+                        mode: if s.has_pipelines && s.files.0.iter().any(|f| f.0 == s.entries[*ei] && f.1.contains("Pipeline ")) { Mode::All } else { Mode::NoPipeline },
+                        validate_layout: *validate,
+                        origin: format!("corpus:{}:{}", s.name, s.entries[*ei]),
+                    },
+                    vec![format!("origin:corpus:{}", s.name)],
+                    None,
+                )
+            }
+            Work::Generated(i) => {
+                let (case, p) = generated_case(seed, *i);
+                let mut f = p.features;
+                f.push("origin:generated".into());
+                f.push(format!("mode:{}", case.mode.name().split(':').next().unwrap_or("")));
+                f.push(format!("validate_layout:{}", case.validate_layout));
+                (case, f, p.injected)
+            }
+        };
+        if examine(&case, report) {
+            let mut h = hash_str(&case.mode.name()).rotate_left(7) ^ (case.validate_layout as u64);
+            if case.files.0.len() <= 4 {
+                for f in &case.files.0 {
+                    h ^= hash_str(&f.1).rotate_left((f.0.len() % 31) as u32);
+                }
+            } else {
+                h ^= hash_str(case.entry_text()) ^ hash_str(&case.entry);
+            }
+            report.distinct(h);
+            if case.files.0.len() == 2 {
+                report.count("feature:declarations-in-included-file");
+            }
+            for f in features {
+                report.count(&format!("feature:{}", f));
+            }
+            if let Some(i) = injected {
+                report.count(&format!("injected:{}", i));
+            }
+            if report.want_sample() && index % 211 == 17 {
+                report.sample(Json::obj().set("origin", case.origin.as_str()).set("mode", case.mode.name()).set("validate_layout", case.validate_layout).set("input_prefix", short(case.entry_text(), 1500)));
+            }
+        }
+    });
+    if snippets.len() < 50 {
+        report.inconclusive("could not read the unit-test snippets from /repo");
+    }
+    // the comparisons the property is about must all have been exercised
+    for key in ["source:dx-vk:equal-after-stripping", "source:vk-vkba:with-buffer-addresses", "front-diagnostic:identical", "bindings:sets-compared", "pipeline-state:compared(graphics)", "reports-compared:HlslForDirectX-Msl"] {
+        if report.counters.get(key).copied().unwrap_or(0) < 20 && report.violations.is_empty() {
+            report.inconclusive(&format!("comparison `{}` was exercised fewer than 20 times", key));
+        }
+    }
+    report
+}
+
+fn replay(_ctx: &Ctx, witness: &Json) -> Report {
+    let mut report = Report::new();
+    let entry = witness.get_str("entry").unwrap_or("main.rssl").to_string();
+    let mut defines = Vec::new();
+    if let Some(d) = witness.get("defines").and_then(|d| d.as_arr()) {
+        for kv in d {
+            if let Some(kv) = kv.as_arr() {
+                if kv.len() == 2 {
+                    defines.push((kv[0].as_str().unwrap_or("").to_string(), kv[1].as_str().unwrap_or("").to_string()));
+                }
+            }
+        }
+    }
+    let origin = witness.get_str("origin").unwrap_or("replay").to_string();
+    let files = match witness.get("files") {
+        Some(f) => Files::from_json(f),
+        None => {
+            let set = origin.split(':').nth(1).unwrap_or("");
+            match corpus::load().into_iter().find(|s| s.name == set) {
+                Some(s) => s.files,
+                None => {
+                    report.inconclusive("witness has no files and names no corpus set");
+                    return report;
+                }
+            }
+        }
+    };
+    let case = Case {
+        files,
+        entry,
+        defines,
+        mode: Mode::from_name(witness.get_str("mode").unwrap_or("all")),
+        validate_layout: witness.get("validate_layout").and_then(|v| v.as_bool()).unwrap_or(false),
+        origin,
+    };
+    examine(&case, &mut report);
+    report
+}
